@@ -1917,6 +1917,174 @@ def run_detectors(ctx):
             ctx.violation('curved-detector alignment circ', al[1], desc)
 
 
+# ---------------------------------------------------------------------------
+# round 4: rotation_matrix_from_to called directly, all branches (model: rotFromToCode2/3)
+
+def _unit(v):
+    v = np.asarray(v, dtype=float)
+    return v / np.linalg.norm(v)
+
+
+def fromto_cases(rng, quick):
+    """(class name, u, v) with raw (un-normalised) vectors"""
+    out = []
+    n = 4 if quick else 16
+    for _ in range(n):
+        u, v = gen_vec(rng, 3), gen_vec(rng, 3)
+        out.append(('3d/generic', u, v))
+        k = rng.choice([1.0, 2.5, 0.5])
+        out.append(('3d/same', u, [k * x for x in u]))
+        out.append(('3d/opposite', u, [-k * x for x in u]))
+        # a vector orthogonal to u, to tilt by a tiny angle
+        w = np.cross(u, gen_vec(rng, 3))
+        w = w / np.linalg.norm(w) * np.linalg.norm(u)
+        for th, sg in ((1e-12, 1.0), (2e-11, -1.0), (2e-11, 1.0), (1e-12, -1.0)):
+            out.append(('3d/in-band-' + ('same' if sg > 0 else 'opposite'), u,
+                        (sg * (np.asarray(u) + th * w)).tolist()))
+        for th in (1e-2, 1e-3, 1e-4, 1e-7):
+            out.append(('3d/near-opposite', u, (-(np.asarray(u) + th * w)).tolist()))
+        out.append(('3d/near-same', u, (np.asarray(u) + 1e-6 * w).tolist()))
+        z = rng.choice([2.0, -0.5, 1.0])
+        out.append(('3d/perp-ez-opposite', [0.0, 0.0, z], [0.0, 0.0, -3 * z]))
+        out.append(('3d/perp-ez-same', [0.0, 0.0, z], [0.0, 0.0, 3 * z]))
+        out.append(('3d/zero', [0.0, 0.0, 0.0] if rng.random() < 0.5 else [1e-11, 0.0, -2e-11], v))
+        out.append(('3d/zero', u, [0.0, 3e-11, 0.0]))
+        a, b = gen_vec(rng, 2), gen_vec(rng, 2)
+        out.append(('2d/generic', a, b))
+        out.append(('2d/same', a, [k * x for x in a]))
+        out.append(('2d/opposite', a, [-k * x for x in a]))
+        out.append(('2d/orthogonal', a, [-k * a[1], k * a[0]]))
+        out.append(('2d/zero', [0.0, 1e-11], b))
+    # axis-aligned vectors with power-of-two lengths: everything is exact in floats
+    ax3 = [[sg * k if i == j else 0.0 for j in range(3)] for i in range(3) for sg, k in ((1, 2.0), (-1, 0.5))]
+    for u in ax3:
+        for v in ax3:
+            out.append(('3d/axis-aligned', u, v))
+    ax2 = [[sg * k if i == j else 0.0 for j in range(2)] for i in range(2) for sg, k in ((1, 4.0), (-1, 0.25))]
+    for u in ax2:
+        for v in ax2:
+            out.append(('2d/axis-aligned', u, v))
+    return out
+
+
+def fromto_oracle(u, v, st, R):
+    """rotation_matrix_from_to(u, v) on the real code: raises ValueError exactly for (nearly) zero
+    vectors; otherwise R is a rotation with R u/|u| = v/|v| (up to the conditioning of the
+    input).  Returns list of messages."""
+    u, v = np.asarray(u, dtype=float), np.asarray(v, dtype=float)
+    nu, nv = np.linalg.norm(u), np.linalg.norm(v)
+    if min(nu, nv) < 1e-10:
+        return [] if st.startswith('err:ValueError') else ['accepts a zero vector: ' + st]
+    if st != 'ok':
+        return ['raised ' + st]
+    R = np.asarray(R, dtype=float)
+    n = len(u)
+    if R.shape != (n, n):
+        return ['shape {}'.format(R.shape)]
+    bad = []
+    if not close(R.T.dot(R), np.eye(n), 1e-12):
+        bad.append('not orthonormal: |R^T R - I| = {}'.format(np.abs(R.T.dot(R) - np.eye(n)).max()))
+    if abs(np.linalg.det(R) - 1) > 1e-12:
+        bad.append('det = {!r}'.format(float(np.linalg.det(R))))
+    uh, vh = u / nu, v / nv
+    th = abs(uh[0] * vh[1] - uh[1] * vh[0]) if n == 2 else float(np.linalg.norm(np.cross(uh, vh)))
+    # collinear band of the 3-d code (|u x v| < 1e-10): R u = +-u, off by at most the angle;
+    # outside: the normalised cross product has a relative rounding error of about eps/angle
+    tol = 1e-12 + (2.5 * th if (n == 3 and th < 1e-10) else 4e-16 / max(th, 1e-300) if th < 0.1 else 0.0)
+    if not close(R.dot(uh), vh, tol):
+        bad.append('R u/|u| - v/|v| = {} (tolerance {})'.format(np.abs(R.dot(uh) - vh).max(), tol))
+    return bad
+
+
+def run_fromto(ctx):
+    from odl.tomo.util.utility import rotation_matrix_from_to
+    cases = fromto_cases(ctx.rng, ctx.quick)
+    cpi, spi = float(np.cos(np.pi)), float(np.sin(np.pi))
+    lines, res = [], []
+    for nm, u, v in cases:
+        ua, va = np.array(u, dtype=float), np.array(v, dtype=float)
+        st, R = guarded(lambda: rotation_matrix_from_to(ua.copy(), va.copy()))
+        res.append((st, R))
+        lines.append('fromto dim={} u={} v={} pi={}'.format(len(u), vec(ua), vec(va), fl([cpi, spi])))
+    outs = core.run_driver('C19', lines)
+    for (nm, u, v), (st, R), ans in zip(cases, res, outs):
+        desc = {'kind': 'fromto', 'u': list(map(float, u)), 'v': list(map(float, v))}
+        ctx.case(('fromto', nm), sample={'case': desc, 'model': ans[:160]} if nm == '3d/opposite' and
+                 len(ctx.samples) < 6 else None)
+        ctx.hit('fromto/' + nm)
+        for msg in fromto_oracle(u, v, st, R):
+            ctx.violation('rotation_matrix_from_to {}'.format(nm), 'u={} v={}: {}'.format(u, v, msg), desc)
+        if ans == 'err:value' or not st == 'ok':
+            ctx.hit('fromto/model/raises')
+            if not (ans == 'err:value' and st.startswith('err:ValueError')):
+                ctx.disagree(desc, st, ans, stream='fromto-raises')
+            continue
+        br = ans.split()[1].split('=')[1]
+        ctx.hit('fromto/model/' + br)
+        m = parse_ans('ok ' + ans.split()[2])
+        Rf = np.asarray(R, dtype=float)
+        if nm.endswith('axis-aligned') and br in ('same', 'opposite'):
+            # exact stream: every operation of the code is exact on these inputs
+            ctx.hit('fromto/exact')
+            exact = [Fraction(x) for x in core.pfl(ans.split()[2].split('=')[1])]
+            if [Fraction(float(x)) for x in Rf.ravel()] != exact:
+                ctx.disagree(desc, Rf.tolist(), ans, stream='fromto-exact')
+            continue
+        tol = 4e-12
+        if br == 'generic':
+            uh, vh = _unit(u), _unit(v)
+            th = float(np.linalg.norm(np.cross(uh, vh)))
+            if th < 0.1:
+                tol += 8e-16 / th
+        expected_br = {'3d/same': 'same', '3d/opposite': 'opposite', '3d/in-band-same': 'same',
+                       '3d/in-band-opposite': 'opposite', '3d/near-opposite': 'generic',
+                       '3d/near-same': 'generic', '3d/generic': 'generic',
+                       '3d/perp-ez-opposite': 'opposite', '3d/perp-ez-same': 'same'}.get(nm)
+        if expected_br is not None and br != expected_br:
+            ctx.disagree(desc, 'harness expects branch ' + expected_br, ans, stream='fromto-branch')
+        if m is None or not close(Rf, m['m'], tol):
+            ctx.disagree(desc, Rf.tolist(), ans, stream='fromto')
+
+
+def run_helix(ctx, specs):
+    """helical ConeBeamGeometry (oracle; model: C19.helical_pitch_period about the Cone.srcPos /
+    refpoint / detPoint the point stream executes): one more turn moves source, detector
+    reference point and detector points by pitch*axis and keeps det_to_src (2 pi periodic
+    shift functions)."""
+    for s in specs:
+        if s['cls'] != 'cone' or 'pitch' not in s:
+            continue
+        st, g = guarded(lambda: build(s))
+        if st != 'ok':
+            continue
+        step = np.asarray(g.pitch * np.asarray(g.axis, dtype=float))
+        for i in range(3):
+            ang = round(ctx.rng.uniform(max(s['amin'], 0.0), s['amax'] - PI2), 4)
+            dp = (round(ctx.rng.uniform(s['dlo'], s['dhi']), 4), round(ctx.rng.uniform(s['vlo'], s['vhi']), 4))
+            desc = {'kind': 'helix', 'spec': jsonable_spec(s), 'ang': ang, 'dp': list(dp)}
+            ctx.case(variant_sig(s['cls'], s['how'], s['variant']) + ('helix',))
+            ctx.hit('helix/period' + ('/shifts' if s.get('ssh') else ''))
+            for msg in helix_oracle(s, g, ang, dp, step):
+                ctx.violation('helical pitch period cone how={} det={} flags={}'.format(
+                    s['how'], s.get('det', 'flat'), '+'.join(sorted(s['variant']))), msg, desc)
+
+
+def helix_oracle(s, g, ang, dp, step):
+    bad = []
+    tol = TOL * (1 + scale_of(s, g, ang + PI2)) * 8
+    for nm, f, shift in (('src_position', lambda a: g.src_position(a), step),
+                         ('det_refpoint', lambda a: g.det_refpoint(a), step),
+                         ('det_point_position', lambda a: g.det_point_position(a, dp), step),
+                         ('det_to_src', lambda a: g.det_to_src(a, dp, normalized=False), 0 * step)):
+        st, ab = guarded(lambda: (np.asarray(f(ang), dtype=float), np.asarray(f(ang + PI2), dtype=float)))
+        if st != 'ok':
+            bad.append('{} raised {}'.format(nm, st))
+        elif not close(ab[1] - ab[0], shift, tol):
+            bad.append('{}(a + 2 pi) - {}(a) = {} expected {} at a={}'.format(
+                nm, nm, (ab[1] - ab[0]).tolist(), np.asarray(shift).tolist(), ang))
+    return bad
+
+
 def stream(ctx, name, f, *a):
     """A stream must never take the harness down: an exception escaping the guarded calls
     (possible only when the real code returns something of an unexpected kind) is reported
@@ -1951,6 +2119,8 @@ def run(ctx):
     stream(ctx, 'frommatrix', run_frommatrix, specs)
     stream(ctx, 'factories', run_factories)
     stream(ctx, 'detectors', run_detectors)
+    stream(ctx, 'fromto', run_fromto)
+    stream(ctx, 'helix', run_helix, specs)
     unhit = [b for b in MODEL_BRANCHES if not ctx.branches.get(b)]
     ctx.extra['unhit_model_branches'] = unhit
     if unhit:
@@ -1981,7 +2151,13 @@ MODEL_BRANCHES = (
     + ['factory/cone/3d/z-' + z for z in Z_PATTERNS]
     + ['detector/cyl', 'detector/sph', 'detector/circ', 'vector-m/rotation_matrix', 'vector-m/det_refpoint',
        'vector-m/src_position', 'vector-m/det_axis', 'vector-m/det_axes',
-       'vector-m/outer-product/2-angles', 'vector-m/outer-product/3-angles'])
+       'vector-m/outer-product/2-angles', 'vector-m/outer-product/3-angles']
+    + ['fromto/' + n for n in ('3d/generic', '3d/same', '3d/opposite', '3d/in-band-same', '3d/in-band-opposite',
+                               '3d/near-opposite', '3d/near-same', '3d/perp-ez-opposite', '3d/perp-ez-same',
+                               '3d/zero', '3d/axis-aligned', '2d/generic', '2d/same', '2d/opposite',
+                               '2d/orthogonal', '2d/zero', '2d/axis-aligned', 'model/raises', 'model/same',
+                               'model/opposite', 'model/generic', 'model/2d', 'exact')]
+    + ['helix/period', 'helix/period/shifts'])
 
 
 def search(ctx, broken):
@@ -1997,6 +2173,8 @@ def search(ctx, broken):
         stream(ctx, 'frommatrix', run_frommatrix, specs)
         stream(ctx, 'factories', run_factories)
         stream(ctx, 'detectors', run_detectors)
+        stream(ctx, 'fromto', run_fromto)
+        stream(ctx, 'helix', run_helix, specs)
     finally:
         real.tier = saved
 
@@ -2067,6 +2245,20 @@ def replay(ctx, case):
             return 'constructor raised ' + st
         motion_only(tmp, s, g, s.get('neul', 1) if s['cls'] == 'par3e' else 1, 2 if s['cls'] in ('par2', 'fan') else 3)
         return '; '.join(v['what'] for v in tmp.violations) if tmp.violations else None
+    if kind == 'fromto':
+        from odl.tomo.util.utility import rotation_matrix_from_to
+        st, R = guarded(lambda: rotation_matrix_from_to(np.array(case['u'], dtype=float),
+                                                        np.array(case['v'], dtype=float)))
+        bad = fromto_oracle(case['u'], case['v'], st, R)
+        return '; '.join(bad) if bad else None
+    if kind == 'helix':
+        s = case['spec']
+        st, g = guarded(lambda: build(s))
+        if st != 'ok':
+            return 'constructor raised ' + st
+        bad = helix_oracle(s, g, case['ang'], tuple(case['dp']),
+                           np.asarray(g.pitch * np.asarray(g.axis, dtype=float)))
+        return '; '.join(bad) if bad else None
     if kind == 'factory':
         return 'factory cases are regenerated from the seed; rerun ./check C19'
     return None
